@@ -35,7 +35,7 @@ class Check(FormulaCheck):
         q = tier == 'quick'
         specs = [{'campaign': 'sentinels'}]
         for i in range(16):
-            specs.append({'campaign': 'random', 'seed': seed, 'n': 500 if q else 30000, 'i': i})
+            specs.append({'campaign': 'random', 'seed': seed, 'n': 1200 if q else 30000, 'i': i})
         if q:
             years = [1900, 1901, 1903, 1904, 1999, 2000, 2001, 2020, 2023, 2024, 2099, 2100, 2101, 2399, 2400, 9998, 9999, 1950, 3000, 4000]
             for i in range(4):
